@@ -612,6 +612,66 @@ end
 /-- body of a `Runtime(In)VisibleAnnotations` attribute -/
 def encAnnos (as : List SAnno) : Bytes := be16 as.length ++ as.flatMap SAnno.encode
 
+/-! ## type annotations outside `Code` (JVMS §4.7.20) -/
+
+/-- who owns the attribute: decides which `target_type`s are admissible -/
+inductive Owner where
+  | cls | field | method
+  deriving DecidableEq, Repr, Inhabited
+
+/-- `target_type` and `target_info` -/
+def encTarget : Target → Bytes
+  | .typeParam tag i => [tag, i]
+  | .extends_ => 0x10 :: be16 65535
+  | .implements i => 0x10 :: be16 i
+  | .typeParamBound tag a b => [tag, a, b]
+  | .field => [0x13]
+  | .ret => [0x14]
+  | .receiver => [0x15]
+  | .formalParam i => [0x16, i]
+  | .throws i => 0x17 :: be16 i
+  | _ => []
+
+/-- the targets an owner admits, with operands fitting their fields -/
+def targetOk : Owner → Target → Prop
+  | .cls, .typeParam tag i => tag = 0x00 ∧ i < 256
+  | .cls, .extends_ => True
+  | .cls, .implements i => i < 65535
+  | .cls, .typeParamBound tag a b => tag = 0x11 ∧ a < 256 ∧ b < 256
+  | .field, .field => True
+  | .method, .typeParam tag i => tag = 0x01 ∧ i < 256
+  | .method, .typeParamBound tag a b => tag = 0x12 ∧ a < 256 ∧ b < 256
+  | .method, .ret => True
+  | .method, .receiver => True
+  | .method, .formalParam i => i < 256
+  | .method, .throws i => i < 65536
+  | _, _ => False
+
+/-- `type_path`: (kind 0..3, argument index; the index is 0 unless the kind is 3) -/
+def encTypePath (path : List (Nat × Nat)) : Bytes := path.length :: path.flatMap (fun q => [q.1, q.2])
+
+def typePathOk (path : List (Nat × Nat)) : Prop :=
+  path.length < 256 ∧ ∀ q ∈ path, (q.1 ≤ 2 ∧ q.2 = 0) ∨ (q.1 = 3 ∧ q.2 < 256)
+
+structure STypeAnno where
+  target : Target
+  path : List (Nat × Nat)
+  anno : SAnno
+  deriving Inhabited
+
+def STypeAnno.encode (a : STypeAnno) : Bytes := encTarget a.target ++ encTypePath a.path ++ a.anno.encode
+
+def STypeAnno.Legal (p : Pool) (o : Owner) (a : STypeAnno) : Prop := targetOk o a.target ∧ typePathOk a.path ∧ a.anno.Legal p
+
+def STypeAnno.fact (a : STypeAnno) : TypeAnno := ⟨a.target, a.path, a.anno.fact⟩
+
+def encTypeAnnos (as : List STypeAnno) : Bytes := be16 as.length ++ as.flatMap STypeAnno.encode
+
+/-- a `Runtime(In)VisibleTypeAnnotations` attribute of the given owner -/
+def typeAnnosLegal (p : Pool) (o : Owner) (nc : Nat) (visible : Bool) (as : List STypeAnno) : Prop :=
+  nc < 65536 ∧ p.getUtf8 nc = .ok (if visible then sRVTA else sRITA) ∧ as.length < 65536 ∧ (∀ a ∈ as, a.Legal p o) ∧
+    (encTypeAnnos as).length < 4294967296
+
 /-! ## attributes of fields, methods and the class; the class file -/
 
 /-- `attributes_count` and the attributes, each framed by name index and length -/
@@ -640,6 +700,7 @@ inductive SFieldAttr where
   | signature (nc cp : Nat) (sig : JStr)
   /-- `RuntimeVisibleAnnotations` (`visible`) / `RuntimeInvisibleAnnotations` -/
   | annotations (nc : Nat) (visible : Bool) (as : List SAnno)
+  | typeAnnotations (nc : Nat) (visible : Bool) (as : List STypeAnno)
   | unknown (nc : Nat) (name : JStr) (bytes : Bytes)
   deriving Inhabited
 
@@ -649,6 +710,7 @@ def SFieldAttr.raw : SFieldAttr → Nat × Bytes
   | .constantValue nc cp _ => (nc, be16 cp)
   | .signature nc cp _ => (nc, be16 cp)
   | .annotations nc _ as => (nc, encAnnos as)
+  | .typeAnnotations nc _ as => (nc, encTypeAnnos as)
   | .unknown nc _ b => (nc, b)
 
 def SFieldAttr.Legal (p : Pool) : SFieldAttr → Prop
@@ -657,6 +719,7 @@ def SFieldAttr.Legal (p : Pool) : SFieldAttr → Prop
   | .constantValue nc cp v => nc < 65536 ∧ p.getUtf8 nc = .ok sConstantValue ∧ cp < 65536 ∧ p.getConstantValue cp = .ok v
   | .signature nc cp sig => nc < 65536 ∧ p.getUtf8 nc = .ok sSignature ∧ cp < 65536 ∧ p.getUtf8 cp = .ok sig
   | .annotations nc visible as => annosLegal p nc visible as
+  | .typeAnnotations nc visible as => typeAnnosLegal p .field nc visible as
   | .unknown nc name b => nc < 65536 ∧ p.getUtf8 nc = .ok name ∧ name ∉ fieldAttrNames ∧ b.length < 4294967296
 
 /-- what an attribute adds to the description of the field; `none`: a second `ConstantValue` / `Signature` -/
@@ -667,7 +730,15 @@ def SFieldAttr.apply (f : FieldFacts) : SFieldAttr → Option FieldFacts
   | .signature _ _ sig => if f.signature.isNone then some { f with signature := some sig } else none
   | .annotations _ visible as =>
     if visible then some { f with rva := f.rva ++ as.map SAnno.fact } else some { f with ria := f.ria ++ as.map SAnno.fact }
+  | .typeAnnotations _ visible as =>
+    if visible then some { f with rvta := f.rvta ++ as.map STypeAnno.fact } else some { f with rita := f.rita ++ as.map STypeAnno.fact }
   | .unknown _ name b => some { f with attrs := f.attrs ++ [⟨name, b⟩] }
+
+def mapOpt {α β : Type} (f : α → Option β) : List α → Option (List β)
+  | [] => some []
+  | a :: r => match f a, mapOpt f r with
+    | some b, some bs => some (b :: bs)
+    | _, _ => none
 
 def applyAll {σ α : Type} (step : σ → α → Option σ) : σ → List α → Option σ
   | st, [] => some st
@@ -702,6 +773,7 @@ inductive SMethodAttr where
   | exceptions (nc : Nat) (cps : List Nat) (names : List JStr)
   | signature (nc cp : Nat) (sig : JStr)
   | annotations (nc : Nat) (visible : Bool) (as : List SAnno)
+  | typeAnnotations (nc : Nat) (visible : Bool) (as : List STypeAnno)
   | annotationDefault (nc : Nat) (e : SElem)
   /-- `MethodParameters`: (name index, name, access flags) -/
   | methodParameters (nc : Nat) (ps : List (Nat × Option JStr × Nat))
@@ -715,6 +787,7 @@ def SMethodAttr.raw : SMethodAttr → Nat × Bytes
   | .exceptions nc cps _ => (nc, be16 cps.length ++ cps.flatMap be16)
   | .signature nc cp _ => (nc, be16 cp)
   | .annotations nc _ as => (nc, encAnnos as)
+  | .typeAnnotations nc _ as => (nc, encTypeAnnos as)
   | .annotationDefault nc e => (nc, e.encode)
   | .methodParameters nc ps => (nc, be8 ps.length ++ ps.flatMap (fun q => be16 q.1 ++ be16 q.2.2))
   | .unknown nc _ b => (nc, b)
@@ -727,6 +800,7 @@ def SMethodAttr.Legal (p : Pool) (bsms : Option (List Bsm)) : SMethodAttr → Pr
       ∀ x ∈ cps.zip names, x.1 < 65536 ∧ p.getClass x.1 = .ok x.2
   | .signature nc cp sig => nc < 65536 ∧ p.getUtf8 nc = .ok sSignature ∧ cp < 65536 ∧ p.getUtf8 cp = .ok sig
   | .annotations nc visible as => annosLegal p nc visible as
+  | .typeAnnotations nc visible as => typeAnnosLegal p .method nc visible as
   | .annotationDefault nc e => nc < 65536 ∧ p.getUtf8 nc = .ok sAnnotationDefault ∧ e.Legal p ∧ e.encode.length < 4294967296
   | .methodParameters nc ps => nc < 65536 ∧ p.getUtf8 nc = .ok sMethodParameters ∧ ps.length < 256 ∧
       ∀ q ∈ ps, q.1 < 65536 ∧ q.2.2 < 65536 ∧
@@ -741,6 +815,8 @@ def SMethodAttr.apply (m : MethodFacts) : SMethodAttr → Option MethodFacts
   | .signature _ _ sig => if m.signature.isNone then some { m with signature := some sig } else none
   | .annotations _ visible as =>
     if visible then some { m with rva := m.rva ++ as.map SAnno.fact } else some { m with ria := m.ria ++ as.map SAnno.fact }
+  | .typeAnnotations _ visible as =>
+    if visible then some { m with rvta := m.rvta ++ as.map STypeAnno.fact } else some { m with rita := m.rita ++ as.map STypeAnno.fact }
   | .annotationDefault _ e => some { m with annotationDefault := some e.fact }
   | .methodParameters _ ps =>
     if m.params.isNone then some { m with params := some (ps.map fun q => ⟨q.2.1, q.2.2 &&& maskParam⟩) } else none
@@ -784,6 +860,130 @@ structure SBsm where
   args : List Nat
   deriving Inhabited
 
+/-- attributes of a record component inside the proved fragment -/
+inductive SRecordAttr where
+  | signature (nc cp : Nat) (sig : JStr)
+  | annotations (nc : Nat) (visible : Bool) (as : List SAnno)
+  | typeAnnotations (nc : Nat) (visible : Bool) (as : List STypeAnno)
+  | unknown (nc : Nat) (name : JStr) (bytes : Bytes)
+  deriving Inhabited
+
+/-- names with a meaning on a record component -/
+def recordAttrNames : List JStr := [sSignature, sRVA, sRIA, sRVTA, sRITA]
+
+def SRecordAttr.raw : SRecordAttr → Nat × Bytes
+  | .signature nc cp _ => (nc, be16 cp)
+  | .annotations nc _ as => (nc, encAnnos as)
+  | .typeAnnotations nc _ as => (nc, encTypeAnnos as)
+  | .unknown nc _ b => (nc, b)
+
+def SRecordAttr.Legal (p : Pool) : SRecordAttr → Prop
+  | .signature nc cp sig => nc < 65536 ∧ p.getUtf8 nc = .ok sSignature ∧ cp < 65536 ∧ p.getUtf8 cp = .ok sig
+  | .annotations nc visible as => annosLegal p nc visible as
+  | .typeAnnotations nc visible as => typeAnnosLegal p .field nc visible as
+  | .unknown nc name b => nc < 65536 ∧ p.getUtf8 nc = .ok name ∧ name ∉ recordAttrNames ∧ b.length < 4294967296
+
+def SRecordAttr.apply (c : RecordComponent) : SRecordAttr → Option RecordComponent
+  | .signature _ _ sig => if c.signature.isNone then some { c with signature := some sig } else none
+  | .annotations _ visible as =>
+    if visible then some { c with rva := c.rva ++ as.map SAnno.fact } else some { c with ria := c.ria ++ as.map SAnno.fact }
+  | .typeAnnotations _ visible as =>
+    if visible then some { c with rvta := c.rvta ++ as.map STypeAnno.fact } else some { c with rita := c.rita ++ as.map STypeAnno.fact }
+  | .unknown _ name b => some { c with attrs := c.attrs ++ [⟨name, b⟩] }
+
+structure RecordLayout where
+  nameCp : Nat
+  name : JStr
+  descCp : Nat
+  desc : JStr
+  attrs : List SRecordAttr
+  deriving Inhabited
+
+def RecordLayout.encode (c : RecordLayout) : Bytes :=
+  be16 c.nameCp ++ be16 c.descCp ++ encAttrs (c.attrs.map SRecordAttr.raw)
+
+def RecordLayout.Legal (p : Pool) (c : RecordLayout) : Prop :=
+  c.nameCp < 65536 ∧ c.descCp < 65536 ∧ p.getUtf8 c.nameCp = .ok c.name ∧ p.getUtf8 c.descCp = .ok c.desc ∧
+    c.attrs.length < 65536 ∧ ∀ a ∈ c.attrs, a.Legal p
+
+def RecordLayout.facts (c : RecordLayout) : Option RecordComponent :=
+  applyAll SRecordAttr.apply ⟨c.name, c.desc, none, [], [], [], [], []⟩ c.attrs
+
+/-- `requires` entry: module index/name, flags, version index/version -/
+structure SRequires where
+  cp : Nat
+  name : JStr
+  flags : Nat
+  vcp : Nat
+  version : Option JStr
+  deriving Inhabited
+
+/-- `exports` / `opens` entry: package index/name, flags, target modules -/
+structure SExports where
+  cp : Nat
+  name : JStr
+  flags : Nat
+  to : List (Nat × JStr)
+  deriving Inhabited
+
+/-- `provides` entry: service class, implementations -/
+structure SProvides where
+  cp : Nat
+  name : JStr
+  with_ : List (Nat × JStr)
+  deriving Inhabited
+
+structure SModule where
+  cp : Nat
+  name : JStr
+  flags : Nat
+  vcp : Nat
+  version : Option JStr
+  requires : List SRequires
+  exports : List SExports
+  opens : List SExports
+  uses : List (Nat × JStr)
+  provides : List SProvides
+  deriving Inhabited
+
+def encRefs (xs : List (Nat × JStr)) : Bytes := be16 xs.length ++ xs.flatMap (fun x => be16 x.1)
+
+def SRequires.encode (r : SRequires) : Bytes := be16 r.cp ++ be16 r.flags ++ be16 r.vcp
+def SExports.encode (e : SExports) : Bytes := be16 e.cp ++ be16 e.flags ++ encRefs e.to
+def SProvides.encode (e : SProvides) : Bytes := be16 e.cp ++ encRefs e.with_
+
+def SModule.encode (m : SModule) : Bytes :=
+  be16 m.cp ++ be16 m.flags ++ be16 m.vcp ++ (be16 m.requires.length ++ m.requires.flatMap SRequires.encode)
+    ++ (be16 m.exports.length ++ m.exports.flatMap SExports.encode) ++ (be16 m.opens.length ++ m.opens.flatMap SExports.encode)
+    ++ encRefs m.uses ++ (be16 m.provides.length ++ m.provides.flatMap SProvides.encode)
+
+/-- a `u2` count followed by that many pool indices, each resolving through `get` to the listed value -/
+def refsLegal (get : Nat → Outcome JStr) (xs : List (Nat × JStr)) : Prop :=
+  xs.length < 65536 ∧ ∀ x ∈ xs, x.1 < 65536 ∧ get x.1 = .ok x.2
+
+def SRequires.Legal (p : Pool) (r : SRequires) : Prop :=
+  r.cp < 65536 ∧ r.flags < 65536 ∧ r.vcp < 65536 ∧ p.getModule r.cp = .ok r.name ∧ p.getOptional r.vcp Pool.getUtf8 = .ok r.version
+
+def SExports.Legal (p : Pool) (e : SExports) : Prop :=
+  e.cp < 65536 ∧ e.flags < 65536 ∧ p.getPackage e.cp = .ok e.name ∧ refsLegal p.getModule e.to
+
+def SProvides.Legal (p : Pool) (e : SProvides) : Prop :=
+  e.cp < 65536 ∧ p.getClass e.cp = .ok e.name ∧ refsLegal p.getClass e.with_
+
+def SModule.Legal (p : Pool) (m : SModule) : Prop :=
+  m.cp < 65536 ∧ m.flags < 65536 ∧ m.vcp < 65536 ∧ p.getModule m.cp = .ok m.name ∧ p.getOptional m.vcp Pool.getUtf8 = .ok m.version ∧
+    m.requires.length < 65536 ∧ (∀ r ∈ m.requires, r.Legal p) ∧ m.exports.length < 65536 ∧ (∀ e ∈ m.exports, e.Legal p) ∧
+    m.opens.length < 65536 ∧ (∀ e ∈ m.opens, e.Legal p) ∧ refsLegal p.getClass m.uses ∧
+    m.provides.length < 65536 ∧ (∀ e ∈ m.provides, e.Legal p)
+
+def SModule.fact (m : SModule) : Module :=
+  { name := m.name, flags := m.flags &&& maskModule, version := m.version,
+    requires := m.requires.map (fun r => ⟨r.name, r.flags &&& maskRequires, r.version⟩),
+    exports := m.exports.map (fun e => ⟨e.name, e.flags &&& maskExports, e.to.map (·.2)⟩),
+    opens := m.opens.map (fun e => ⟨e.name, e.flags &&& maskExports, e.to.map (·.2)⟩),
+    uses := m.uses.map (·.2),
+    provides := m.provides.map (fun e => ⟨e.name, e.with_.map (·.2)⟩) }
+
 /-- class attributes of the proved fragment -/
 inductive SClassAttr where
   | deprecated (nc : Nat)
@@ -797,6 +997,12 @@ inductive SClassAttr where
   | permittedSubclasses (nc : Nat) (cps : List Nat) (names : List JStr)
   | bootstrapMethods (nc : Nat) (ms : List SBsm)
   | annotations (nc : Nat) (visible : Bool) (as : List SAnno)
+  | typeAnnotations (nc : Nat) (visible : Bool) (as : List STypeAnno)
+  | sourceDebugExtension (nc : Nat) (s : JStr)
+  | record (nc : Nat) (comps : List RecordLayout)
+  | module (nc : Nat) (m : SModule)
+  | modulePackages (nc : Nat) (ps : List (Nat × JStr))
+  | moduleMainClass (nc cp : Nat) (c : JStr)
   | unknown (nc : Nat) (name : JStr) (bytes : Bytes)
   deriving Inhabited
 
@@ -815,6 +1021,12 @@ def SClassAttr.raw : SClassAttr → Nat × Bytes
   | .permittedSubclasses nc cps _ => (nc, be16 cps.length ++ cps.flatMap be16)
   | .bootstrapMethods nc ms => (nc, be16 ms.length ++ ms.flatMap SBsm.encode)
   | .annotations nc _ as => (nc, encAnnos as)
+  | .typeAnnotations nc _ as => (nc, encTypeAnnos as)
+  | .sourceDebugExtension nc s => (nc, Mutf8.encode s)
+  | .record nc comps => (nc, be16 comps.length ++ comps.flatMap RecordLayout.encode)
+  | .module nc m => (nc, m.encode)
+  | .modulePackages nc ps => (nc, encRefs ps)
+  | .moduleMainClass nc cp _ => (nc, be16 cp)
   | .unknown nc _ b => (nc, b)
 
 def SInner.Legal (p : Pool) (e : SInner) : Prop :=
@@ -841,10 +1053,18 @@ def SClassAttr.Legal (p : Pool) : SClassAttr → Prop
   | .bootstrapMethods nc ms => nc < 65536 ∧ p.getUtf8 nc = .ok sBootstrapMethods ∧ ms.length < 65536 ∧ (∀ m ∈ ms, m.Legal p) ∧
       (be16 ms.length ++ ms.flatMap SBsm.encode).length < 4294967296
   | .annotations nc visible as => annosLegal p nc visible as
+  | .typeAnnotations nc visible as => typeAnnosLegal p .cls nc visible as
+  | .sourceDebugExtension nc s => nc < 65536 ∧ p.getUtf8 nc = .ok sSourceDebugExtension ∧ Mutf8.Encodable s = true ∧
+      (Mutf8.encode s).length < 4294967296
+  | .record nc comps => nc < 65536 ∧ p.getUtf8 nc = .ok sRecord ∧ comps.length < 65536 ∧ (∀ c ∈ comps, c.Legal p) ∧
+      (be16 comps.length ++ comps.flatMap RecordLayout.encode).length < 4294967296
+  | .module nc m => nc < 65536 ∧ p.getUtf8 nc = .ok sModule ∧ m.Legal p ∧ m.encode.length < 4294967296
+  | .modulePackages nc ps => nc < 65536 ∧ p.getUtf8 nc = .ok sModulePackages ∧ refsLegal p.getPackage ps
+  | .moduleMainClass nc cp c => nc < 65536 ∧ p.getUtf8 nc = .ok sModuleMainClass ∧ cp < 65536 ∧ p.getClass cp = .ok c
   | .unknown nc name b => nc < 65536 ∧ p.getUtf8 nc = .ok name ∧ name ∉ classAttrNames ∧ b.length < 4294967296
 
-/-- the description of the class so far and the bootstrap table -/
-abbrev ClassAcc := ClassFacts × Option (List Bsm)
+/-- the description of the class so far, the bootstrap table, and whether a `Record` attribute was seen -/
+abbrev ClassAcc := ClassFacts × Option (List Bsm) × Bool
 
 def SClassAttr.apply (st : ClassAcc) : SClassAttr → Option ClassAcc
   | .deprecated _ => some ({ st.1 with deprecated := true }, st.2)
@@ -861,10 +1081,25 @@ def SClassAttr.apply (st : ClassAcc) : SClassAttr → Option ClassAcc
   | .nestMembers _ _ names => if st.1.nestMembers.isNone then some ({ st.1 with nestMembers := some names }, st.2) else none
   | .permittedSubclasses _ _ names =>
     if st.1.permittedSubclasses.isNone then some ({ st.1 with permittedSubclasses := some names }, st.2) else none
-  | .bootstrapMethods _ ms => if st.2.isNone then some (st.1, some (ms.map fun m => ⟨m.handle, m.args⟩)) else none
+  | .bootstrapMethods _ ms => if st.2.1.isNone then some (st.1, some (ms.map fun m => ⟨m.handle, m.args⟩), st.2.2) else none
   | .annotations _ visible as =>
     if visible then some ({ st.1 with rva := st.1.rva ++ as.map SAnno.fact }, st.2)
     else some ({ st.1 with ria := st.1.ria ++ as.map SAnno.fact }, st.2)
+  | .typeAnnotations _ visible as =>
+    if visible then some ({ st.1 with rvta := st.1.rvta ++ as.map STypeAnno.fact }, st.2)
+    else some ({ st.1 with rita := st.1.rita ++ as.map STypeAnno.fact }, st.2)
+  | .sourceDebugExtension _ s =>
+    if st.1.sourceDebugExtension.isNone then some ({ st.1 with sourceDebugExtension := some s }, st.2) else none
+  | .record _ comps =>
+    if st.2.2 then none
+    else match mapOpt RecordLayout.facts comps with
+      | some cs => some ({ st.1 with recordComponents := st.1.recordComponents ++ cs }, st.2.1, true)
+      | none => none
+  | .module _ m => if st.1.module.isNone then some ({ st.1 with module := some m.fact }, st.2) else none
+  | .modulePackages _ ps =>
+    if st.1.modulePackages.isNone then some ({ st.1 with modulePackages := some (ps.map (·.2)) }, st.2) else none
+  | .moduleMainClass _ _ c =>
+    if st.1.moduleMainClass.isNone then some ({ st.1 with moduleMainClass := some c }, st.2) else none
   | .unknown _ name b => some ({ st.1 with attrs := st.1.attrs ++ [⟨name, b⟩] }, st.2)
 
 structure ClassLayout where
@@ -898,22 +1133,16 @@ def ClassLayout.base (c : ClassLayout) : ClassFacts :=
     modulePackages := none, moduleMainClass := none, nestHost := none, nestMembers := none,
     permittedSubclasses := none, recordComponents := [], attrs := [] }
 
-def mapOpt {α β : Type} (f : α → Option β) : List α → Option (List β)
-  | [] => some []
-  | a :: r => match f a, mapOpt f r with
-    | some b, some bs => some (b :: bs)
-    | _, _ => none
-
 /-- the label-free facts the layout denotes (`none`: a single-instance attribute occurs twice) -/
 def ClassLayout.facts (c : ClassLayout) : Option ClassFacts :=
-  match applyAll SClassAttr.apply (c.base, none) c.attrs, mapOpt FieldLayout.facts c.fields, mapOpt MethodLayout.facts c.methods with
+  match applyAll SClassAttr.apply (c.base, none, false) c.attrs, mapOpt FieldLayout.facts c.fields, mapOpt MethodLayout.facts c.methods with
   | some (cf, _), some fs, some ms => some { cf with fields := fs, methods := ms }
   | _, _, _ => none
 
 /-- the bootstrap table the class attributes establish -/
 def ClassLayout.bsms (c : ClassLayout) : Option (List Bsm) :=
-  match applyAll SClassAttr.apply (c.base, none) c.attrs with
-  | some (_, b) => b
+  match applyAll SClassAttr.apply (c.base, none, false) c.attrs with
+  | some (_, b, _) => b
   | none => none
 
 structure ClassLayout.Legal (c : ClassLayout) : Prop where
